@@ -113,6 +113,45 @@ class RecBytesIO(_io.BytesIO):
         return d
 
 
+class RecMmap:
+    """an anonymous memory map holding the stream (mmap.mmap objects are handed to readers when post-processing capture files)"""
+
+    def __init__(self, data, events, maxcalls=None):
+        import mmap
+
+        self.data = bytes(data)
+        self._m = mmap.mmap(-1, len(self.data))
+        self._m.write(self.data)
+        self._m.seek(0)
+        self.events = events
+        self.calls = 0
+        self.maxcalls = maxcalls if maxcalls is not None else 6 * len(data) + 64
+
+    def __getattr__(self, name):  # seek, tell, size, ... : mmap's own
+        return getattr(self._m, name)
+
+    @property
+    def pos(self):
+        return self._m.tell()
+
+    def _tick(self):
+        self.calls += 1
+        if self.calls > self.maxcalls:
+            raise HangGuard()
+
+    def read(self, n=None):
+        self._tick()
+        d = self._m.read(n)
+        self.events.append({"t": "read", "n": n, "got": len(d), "a": 0, "b": 0, "p": "", "fam": ""})
+        return d
+
+    def readline(self):
+        self._tick()
+        d = self._m.readline()
+        self.events.append({"t": "readline", "n": 0, "got": len(d), "a": 0, "b": 0, "p": "", "fam": ""})
+        return d
+
+
 class _RawPipe(_io.RawIOBase):
     """a non-seekable raw byte source (what a pipe, a FIFO, a serial port or socket.makefile() gives)"""
 
@@ -300,7 +339,7 @@ def direct_parse(raw, msgmode=0, validate=1, pbf=1, labelmsm=1):
     return True, digest(m), ""
 
 
-def run_reader(data, filt=7, quit=1, parsing=True, handler=True, msgmode=0, validate=1, pbf=1, keep_reads=True, intern=None, labelmsm=1, bursts=(), kind="min", poll=False, pauses=(), resume=False):
+def run_reader(data, filt=7, quit=1, parsing=True, handler=True, msgmode=0, validate=1, pbf=1, keep_reads=True, intern=None, labelmsm=1, bursts=(), kind="min", poll=False, pauses=(), resume=False, companion=None):
     """One complete iteration of UBXReader over `data`.  Returns the run record."""
     from pyubx2 import UBXReader
 
@@ -314,6 +353,8 @@ def run_reader(data, filt=7, quit=1, parsing=True, handler=True, msgmode=0, vali
         cuts = sorted({i for i, b in enumerate(data) if b == 0x0A and i > 0} | {k for k in range(3, len(data), 17)})
         stream = _sock.ScriptSock(_sock.segments(bytes(data), cuts), ("close", "timeout", "reset")[(len(data) + filt + quit) % 3], [])
         sockview = _SockView(stream, data)
+    elif kind == "bytesio" and not bursts and len(data) > 0 and (len(data) + filt) % 3 == 0:
+        stream = RecMmap(data, events)  # a memory-mapped capture file (file-like, seekable, with mmap's own seek / read semantics)
     elif kind == "bytesio" and not bursts:
         stream = RecBytesIO(data, events)
     elif kind == "pipe" and not bursts:
@@ -357,6 +398,31 @@ def run_reader(data, filt=7, quit=1, parsing=True, handler=True, msgmode=0, vali
         old = signal.signal(signal.SIGALRM, _alarm)
         global _HANGS
         signal.alarm((10 if _HANGS == 0 else 2) + len(data) // 20000)
+    # log records emitted by the library during the run (spec growth: the logging channel of ERR_LOG without an error handler)
+    import logging as _logging
+
+    logs = []
+
+    class _Cap(_logging.Handler):
+        def emit(self, record):
+            msg = record.msg
+            logs.append([record.levelname, family(msg) if isinstance(msg, BaseException) else "text"])
+
+    _cap = _Cap(level=0)
+    _lg = _logging.getLogger("pyubx2")
+    _oldprop = _lg.propagate
+    _lg.addHandler(_cap)
+    _lg.propagate = False
+    _olddis = _logging.root.manager.disable
+    _logging.disable(_logging.NOTSET)  # (the harness silences logging globally; records go to the capturing handler only)
+    import warnings as _warnings
+
+    _wctx = _warnings.catch_warnings()
+    _wctx.__enter__()
+    if (len(data) + quit + filt) % 2:
+        # warnings issued from inside the library are promoted to errors in every second run (python -W error)
+        _warnings.filterwarnings("error", module=r"pyubx2(\.|$)")
+        _warnings.filterwarnings("error", module=r"harness(\.|$)")
     try:
         rdr = UBXReader(stream, **kw)
         if sockview is not None:
@@ -367,7 +433,23 @@ def run_reader(data, filt=7, quit=1, parsing=True, handler=True, msgmode=0, vali
         it = iter(rdr)
         restarts = 0
         resumed = 0
+        crdr = None
+        if companion is not None:
+            # ANOTHER reader over an unrelated stream, used by the same thread call by call in between (its errors are raised to its
+            # caller - ERR_RAISE - who carries on): what this reader returns depends on its own stream only
+            import io as _io
+
+            crdr = UBXReader(_io.BytesIO(bytes(companion)), quitonerror=2, protfilter=7, validate=validate, msgmode=msgmode)
+
+        def _comp():
+            if crdr is not None:
+                try:
+                    crdr.read()
+                except Exception:  # noqa: BLE001 - the companion's own business
+                    pass
+
         while True:
+            _comp()
             try:
                 raw, parsed = next(it)
             except StopIteration:
@@ -414,6 +496,10 @@ def run_reader(data, filt=7, quit=1, parsing=True, handler=True, msgmode=0, vali
             end = "raise"
             endfam = fam
             events.append({"t": "raise", "n": 0, "got": 0, "a": 0, "b": getattr(stream, "pos", 0), "p": "", "fam": fam})
+    _wctx.__exit__(None, None, None)
+    _lg.removeHandler(_cap)
+    _lg.propagate = _oldprop
+    _logging.disable(_olddis)
     if use_alarm:
         signal.alarm(0)
         signal.signal(signal.SIGALRM, old)
@@ -428,7 +514,7 @@ def run_reader(data, filt=7, quit=1, parsing=True, handler=True, msgmode=0, vali
         # stays in the wrapper's buffer, whose read(n) is all-or-nothing)
         "end": end, "endfam": endfam, "left": (len(data) - stream.pos) if sockview is None else (len(data) - sockview.received()),
         "errfams": [family(e) for e in errs],
-        "raised_same": -1,
+        "raised_same": -1, "logs": logs,
     }
     run["_items"] = items
     run["_errs"] = errs
@@ -467,4 +553,4 @@ def finish_run(run, interner):
 def same_exception(a, b):
     # "that same exception": same class and same arguments (arguments that are themselves exception objects - pynmeagps wraps a
     # message error in its parse error under VALMSGID - compare by their printable form: exceptions have no value equality)
-    return type(a) is type(b) and (a.args == b.args or repr(a.args) == repr(b.args))
+    return type(a) is type(b) and (a.args == b.args or repr(a.args) == repr(b.args)) and str(a) == str(b)
